@@ -95,3 +95,70 @@ Theorem mstream_tree_chars :
 Proof. exact FragStream.mstream_tree_chars. Qed.
 Print Assumptions mstream_tree_chars.
 
+
+(* ---------- DOM level (Proofs/DomRel.v): every element with a fragment name and visible content has its marker in the output stream,
+   directly in front of its own characters (table-free documents, overflow off) ---------- *)
+From H2T Require Import Sub Css Dom Render Api CssParse Proofs.WrapInv Proofs.RenderWidth Proofs.Conserve Proofs.Footnotes Proofs.RenderConserve Proofs.OptionRel Proofs.Compose Proofs.FragStream Proofs.SimRel Proofs.Prune Proofs.DomRel.
+Theorem c14_dom_tree :
+  forall (inline_styles : list (text * text) -> res (list styledecl))
+         (doc_rules : list node -> res (list ruleset)) (c : config) (doc : list node) 
+         (tree : rnode),
+       deco_made (c_deco c) ->
+       dom_regular doc = true ->
+       dom_ntab doc = true ->
+       doc_plain inline_styles doc_rules c doc = true ->
+       to_render_tree inline_styles doc_rules c doc = Ok tree ->
+       no_table tree = true /\
+       msub (dom_live doc) (FragStream.strip (mstream_min (c_deco c) tree)) /\
+       msub (mstream_tree (c_deco c) tree) (dom_all doc).
+Proof. exact DomRel.c14_dom_tree. Qed.
+Print Assumptions c14_dom_tree.
+
+Theorem c14_dom_lines :
+  forall (inline_styles : list (text * text) -> res (list styledecl))
+         (doc_rules : list node -> res (list ruleset)) (c : config) (doc : list node) 
+         (width : N) (tls : list tline),
+       deco_made (c_deco c) ->
+       c_overflow c = false ->
+       dom_regular doc = true ->
+       dom_ntab doc = true ->
+       doc_plain inline_styles doc_rules c doc = true ->
+       lines_from_read inline_styles doc_rules c doc width = Ok tls ->
+       btw (dom_live doc) (flat_map mline tls) (dom_all doc).
+Proof. exact DomRel.c14_dom_lines. Qed.
+Print Assumptions c14_dom_lines.
+
+Theorem c14_dom_markers :
+  forall (inline_styles : list (text * text) -> res (list styledecl))
+         (doc_rules : list node -> res (list ruleset)) (c : config) (doc : list node) 
+         (width : N) (tls : list tline),
+       deco_made (c_deco c) ->
+       c_overflow c = false ->
+       dom_regular doc = true ->
+       dom_ntab doc = true ->
+       doc_plain inline_styles doc_rules c doc = true ->
+       lines_from_read inline_styles doc_rules c doc width = Ok tls ->
+       let O := flat_map mline tls in
+       projr O = dom_visible doc /\
+       (forall (a : list (text + chr)) (name : text) (b : list (text + chr)),
+        O = a ++ inl name :: b ->
+        exists a' b' : list (text + chr),
+          dom_all doc = a' ++ inl name :: b' /\ projr a' = projr a /\ projr b' = projr b) /\
+       (forall (a : list (text + chr)) (name : text) (b : list (text + chr)),
+        dom_live doc = a ++ inl name :: b ->
+        exists a' b' : list (text + chr),
+          O = a' ++ inl name :: b' /\ projr a' = projr a /\ projr b' = projr b) /\
+       (NoDup (projl (dom_all doc)) -> NoDup (projl O)).
+Proof. exact DomRel.c14_dom_markers. Qed.
+Print Assumptions c14_dom_markers.
+
+Theorem dml_marker :
+  forall (html : bool) (name : text) (attrs : list (text * text)) (kids : list node) (f : text),
+       frag_name html name attrs = Some f ->
+       dom_vis (NElem html name attrs kids) <> [] ->
+       exists body : list (text + chr),
+         dml (NElem html name attrs kids) = inl f :: body /\
+         projr body = dom_vis (NElem html name attrs kids).
+Proof. exact DomRel.dml_marker. Qed.
+Print Assumptions dml_marker.
+
